@@ -37,35 +37,69 @@ theorem ensure_agree {d d' x x' v : J} {h : String} {rest : List String} (ha : A
     | _ => simp [isObj] at ho'
   | _ => simp [isObj] at ho
 
-theorem cherrypick_agree (src src' : J) : ∀ (fs : List (List String)) (d d' d1 d1' : J),
+theorem agreeOff_symm {e e' : J} (h : AgreeOff e e') : AgreeOff e' e := ⟨h.2.1, h.1, fun k hk => (h.2.2 k hk).symm⟩
+
+theorem ensure_agree_err {d d' v : J} {h : String} {rest : List String} {er : DictErr} (ha : AgreeOff d d')
+    (hne : h ≠ "metadata") (he : ensure d (h :: rest) v = .error er) : ensure d' (h :: rest) v = .error er := by
+  obtain ⟨ho, ho', hk⟩ := ha
+  cases d with
+  | obj l =>
+    cases d' with
+    | obj l' =>
+      rw [ensure_top] at he ⊢
+      have hl : lookup h l = lookup h l' := by simpa [get?] using hk h hne
+      rw [← hl]
+      cases hc : ensureChild (lookup h l) rest v with
+      | error e2 => rw [hc] at he; exact he
+      | ok c => rw [hc] at he; cases he
+    | _ => simp [isObj] at ho'
+  | _ => simp [isObj] at ho
+
+/-- one guarded pick on two destinations that agree off `metadata`: both succeed (and still agree), or both
+    fail with the same error — so the guarded loop skips the same fields on both. -/
+theorem cherrypick_one_agree (src src' : J) {d d' : J} {hh : String} {rest : List String} (hne : hh ≠ "metadata")
+    (hr : resolveE src (hh :: rest) = resolveE src' (hh :: rest)) (ha : AgreeOff d d') :
+    (∃ x x', cherrypick src d [hh :: rest] = .ok x ∧ cherrypick src' d' [hh :: rest] = .ok x' ∧ AgreeOff x x') ∨
+    (∃ e, cherrypick src d [hh :: rest] = .error e ∧ cherrypick src' d' [hh :: rest] = .error e) := by
+  simp only [cherrypick]
+  rw [← hr]
+  cases hres : resolveE src (hh :: rest) with
+  | error e =>
+    cases e
+    · exact Or.inr ⟨_, rfl, rfl⟩
+    · exact Or.inl ⟨d, d', rfl, rfl, ha⟩
+    · exact Or.inr ⟨_, rfl, rfl⟩
+    · exact Or.inr ⟨_, rfl, rfl⟩
+  | ok v =>
+    simp only []
+    cases he : ensure d (hh :: rest) v with
+    | ok x =>
+      cases he' : ensure d' (hh :: rest) v with
+      | ok x' => exact Or.inl ⟨x, x', rfl, rfl, ensure_agree ha hne he he'⟩
+      | error e =>
+        have := ensure_agree_err (agreeOff_symm ha) hne he'
+        rw [he] at this; cases this
+    | error e =>
+      rw [ensure_agree_err ha hne he]
+      exact Or.inr ⟨_, rfl, rfl⟩
+
+theorem cherrypickSkip_agree (src src' : J) : ∀ (fs : List (List String)) (d d' d1 d1' : J),
     ExtraAvoids "metadata" fs → (∀ f, f ∈ fs → resolveE src f = resolveE src' f) → AgreeOff d d' →
-    cherrypick src d fs = .ok d1 → cherrypick src' d' fs = .ok d1' → AgreeOff d1 d1'
+    cherrypickSkip src d fs = .ok d1 → cherrypickSkip src' d' fs = .ok d1' → AgreeOff d1 d1'
   | [], d, d', d1, d1', _, _, ha, h, h' => by
-    simp [cherrypick] at h h'; subst h; subst h'; exact ha
+    simp [cherrypickSkip] at h h'; subst h; subst h'; exact ha
   | f :: fs, d, d', d1, d1', hx, hr, ha, h, h' => by
     obtain ⟨hh, rest, rfl, hne⟩ := hx (f) List.mem_cons_self
     have hx' : ExtraAvoids "metadata" fs := fun g hg => hx g (List.mem_cons_of_mem _ hg)
     have hr' := fun g hg => hr g (List.mem_cons_of_mem _ hg)
     have hrf := hr _ List.mem_cons_self
-    simp only [cherrypick] at h h'
-    rw [← hrf] at h'
-    cases hres : resolveE src (hh :: rest) with
-    | error e =>
-      rw [hres] at h h'
+    simp only [cherrypickSkip] at h h'
+    rcases cherrypick_one_agree src src' hne hrf ha with ⟨x, x', hc, hc', a1⟩ | ⟨e, hc, hc'⟩
+    · rw [hc] at h; rw [hc'] at h'
+      exact cherrypickSkip_agree src src' fs x x' d1 d1' hx' hr' a1 h h'
+    · rw [hc] at h; rw [hc'] at h'
       cases e <;> simp only [] at h h' <;>
-        first | exact cherrypick_agree src src' fs d d' d1 d1' hx' hr' ha h h' | cases h
-    | ok v =>
-      rw [hres] at h h'
-      simp only [] at h h'
-      cases he : liftD (ensure d (hh :: rest) v) with
-      | error e => rw [he] at h; simp [bind, Except.bind] at h
-      | ok x =>
-        cases he' : liftD (ensure d' (hh :: rest) v) with
-        | error e => rw [he'] at h'; simp [bind, Except.bind] at h'
-        | ok x' =>
-          rw [he] at h; rw [he'] at h'
-          simp only [bind, Except.bind] at h h'
-          exact cherrypick_agree src src' fs x x' d1 d1' hx' hr' (ensure_agree ha hne (liftD_ok he) (liftD_ok he')) h h'
+        first | exact cherrypickSkip_agree src src' fs d d' d1 d1' hx' hr' ha h h' | cases h
 
 /-- cherry-picking `metadata.*` fields changes nothing off `metadata`. -/
 theorem picks_off {src d d1 : J} (h : cherrypick src d [ML, MA] = .ok d1) (ho : d.isObj = true) :
@@ -188,25 +222,6 @@ theorem remove_agree {d d' : J} {h : String} (rest : List String) (ha : AgreeOff
     | _ => simp [isObj] at ho'
   | _ => simp [isObj] at ho
 
-theorem remove2_agree {d d' x x' : J} {f t : List String} {hf ht : String} (ha : AgreeOff d d')
-    (h1 : f.head? = some hf) (h2 : t.head? = some ht) (n1 : hf ≠ "metadata") (n2 : ht ≠ "metadata")
-    (h : remove2 d f t = .ok x) (h' : remove2 d' f t = .ok x') : AgreeOff x x' := by
-  obtain ⟨y, r1, r2⟩ := remove2_ok h
-  obtain ⟨y', r1', r2'⟩ := remove2_ok h'
-  cases f with
-  | nil => simp at h1
-  | cons f0 frest =>
-    simp at h1; subst h1
-    have a1 := remove_agree frest ha n1
-    rw [r1, r1'] at a1
-    cases t with
-    | nil => simp at h2
-    | cons t0 trest =>
-      simp at h2; subst h2
-      have a2 := remove_agree trest a1 n2
-      rw [r2, r2'] at a2
-      exact a2
-
 theorem ignoreFields_agree : ∀ (ig : List (List String)) (e e' x x' : J), AvoidKey "metadata" ig → AgreeOff e e' →
     ignoreFields e ig = .ok x → ignoreFields e' ig = .ok x' → AgreeOff x x'
   | [], e, e', x, x', _, ha, h, h' => by simp [ignoreFields] at h h'; subst h; subst h'; exact ha
@@ -263,15 +278,15 @@ theorem baseBuild_agree {ig extra : List (List String)} {kvs kvs' : Kvs} {e e' :
         · cases h'
         · have a2 : AgreeOff (stage2 (.obj l1)) (stage2 (.obj l1')) := by
             unfold stage2; exact filterAnnotations_agree _ _ a1
-          cases h3 : cherrypick (.obj kvs) (stage2 (.obj l1)) extra with
+          cases h3 : cherrypickSkip (.obj kvs) (stage2 (.obj l1)) extra with
           | error er => rw [h3] at h; cases h
           | ok e3 =>
-            cases h3' : cherrypick (.obj kvs') (stage2 (.obj l1')) extra with
+            cases h3' : cherrypickSkip (.obj kvs') (stage2 (.obj l1')) extra with
             | error er => rw [h3'] at h'; cases h'
             | ok e3' =>
               rw [h3] at h; rw [h3'] at h'
               simp only [] at h h'
-              have a3 := cherrypick_agree _ _ extra _ _ _ _ hx hr a2 h3 h3'
+              have a3 := cherrypickSkip_agree _ _ extra _ _ _ _ hx hr a2 h3 h3'
               obtain ⟨l3, rfl⟩ := isObj_obj a3.1
               obtain ⟨l3', rfl⟩ := isObj_obj a3.2.1
               split at h
@@ -310,7 +325,7 @@ theorem progressClear_agree : ∀ (pc : ProgressCfg) (e e' x x' : J), AvoidKey "
     obtain ⟨e0', h0', h3'⟩ := bind_ok h1'
     obtain ⟨hd, hhd, hne⟩ := hav f List.mem_cons_self
     obtain ⟨td, thd, tne⟩ := hav t (List.mem_cons_of_mem _ List.mem_cons_self)
-    have hr := remove2_agree ha hhd thd hne tne (liftD_ok h0) (liftD_ok h0')
+    have hr := ignoreFields_agree [f, t] e e' e0 e0' (avoidKey_two hhd thd hne tne) ha h0 h0'
     cases hobj : e0.isObj with
     | false => rw [hr.1] at hobj; cases hobj
     | true =>
@@ -375,8 +390,9 @@ theorem progress_meta {L : Option J} : ∀ (pc : ProgressCfg) (l : Kvs) (A : Opt
     obtain ⟨e0, h0, h3⟩ := bind_ok h1
     obtain ⟨hd, hhd, hne⟩ := hav f List.mem_cons_self
     obtain ⟨td, thd, tne⟩ := hav t (List.mem_cons_of_mem _ List.mem_cons_self)
-    have g0 : e0.get? "metadata" = (J.obj l).get? "metadata" := remove2_get? hhd thd hne tne (liftD_ok h0)
-    obtain ⟨l0, rfl⟩ := isObj_obj (remove2_isObj (e := .obj l) rfl (liftD_ok h0))
+    have g0 : e0.get? "metadata" = (J.obj l).get? "metadata" :=
+      ignoreFields_get? "metadata" [f, t] _ e0 (avoidKey_two hhd thd hne tne) h0
+    obtain ⟨l0, rfl⟩ := isObj_obj (ignoreFields_isObj [f, t] (.obj l) e0 rfl h0)
     cases hm : metaOK (.obj l0) with
     | false => simp [hm, throw, throwThe, MonadExceptOf.throw, bind, Except.bind] at h3
     | true =>
